@@ -168,6 +168,7 @@ class Execution:
         self.rt.log(
             e='Quiescent',
             gates=len(gates), timers=len(loop.pending_timers()),
+            collab_gates=len([g for g in gates if g.kind == 'collab']),
             pending=[r for r, t in sorted(self.main.items()) if not t.done()],
             unstarted=len(self.rt.runs) - len(self.main),
         )
